@@ -106,20 +106,28 @@ def _nl(cps):
     return "[" + ";".join(str(c) for c in cps) + "]"
 
 
-def _read_records(cases, want, max_len, streams_cap=12):
+def _read_records(cases, want, max_len, streams_cap=6):
     """Pick up to `want` records (text of at most max_len code points), a few per stream."""
     picked, per_stream, cur = [], {}, None
     with open(cases, encoding="utf-8", errors="replace") as f:
         for line in f:
             line = line.rstrip("\n")
             tag, _, rest = line.partition(" ")
+            if cur is not None and cur.get("skip") and tag != "CASE":
+                continue
             if tag == "CASE":
                 p = rest.split(" ")
+                if per_stream.get(p[1], 0) >= streams_cap:
+                    cur = {"skip": True}
+                    continue
                 cur = {"id": p[0], "stream": p[1], "hex": p[2] == "1", "toks": [], "prs": [], "fmt": [], "digits": [],
                        "domain": False, "text": None, "parse": None, "coqast": None, "wtext": None}
             elif cur is None:
                 continue
             elif tag == "TEXT":
+                if int(rest.split(" ", 1)[0]) > max_len:
+                    cur = {"skip": True}
+                    continue
                 t = rest.split(" ")
                 cur["text"] = [int(x) for x in t[1:]]
             elif tag == "DOMAIN":
